@@ -53,6 +53,23 @@ func scnRestart(name string, k kfn, stop Item) *Scenario {
 	return s.faultFree()
 }
 
+// S-restart2: A starts, is stopped, starts again (now a follower of its own stale record),
+// and is finally shut down with DeleteKey; B present throughout. The explorer moves every
+// life-cycle call.
+func scnRestart2(name string, k kfn, first Item) *Scenario {
+	s := k(&Scenario{Name: name})
+	s.Insts = insts("A", "B")
+	s.Script = starts("A", "B")
+	first.At, first.Actor, first.Inst = 1*s.H+31*ms, "lifeA", "A"
+	s.Script = append(s.Script, first,
+		Item{At: 2*s.H + 77*ms, Actor: "lifeA", Do: "start", Inst: "A"},
+		Item{At: 2*s.H + 77*ms + s.TTL + 150*ms, Actor: "lifeA", Do: "stopctx", Inst: "A", DeleteKey: true})
+	s.Horizon = 2*s.H + 77*ms + s.TTL + 150*ms + 900*ms
+	s = s.faultFree()
+	s.AllowDrop = true
+	return s
+}
+
 var stopVariants = []Item{
 	{Do: "stop"},
 	{Do: "stopctx"},
@@ -109,6 +126,10 @@ func c02Plan(tier string) []PlanItem {
 		items = append(items, PlanItem{scnStop("stop/"+stopName(sv)+"-K1", K1, sv, "A", "B"), d})
 		items = append(items, PlanItem{scnRestart("restart/"+stopName(sv)+"-K1", K1, sv), d})
 	}
+	items = append(items,
+		PlanItem{scnRestart2("restart2/stop-then-stopdel-K1", K1, Item{Do: "stop"}), d},
+		PlanItem{scnRestart2("restart2/stopctx-then-stopdel-K1", K1, Item{Do: "stopctx"}), d},
+		PlanItem{dropAll(scnRestart2("restart2/stop-then-stopdel-K1-dropall", K1, Item{Do: "stop"})), d})
 	return items
 }
 
@@ -120,3 +141,5 @@ func init() {
 		Plan:   func(t string) []PlanItem { return append(c02Plan(t), finePlan("C02", t)...) },
 	}
 }
+
+func dropAll(s *Scenario) *Scenario { s.DropAll = true; return s }
